@@ -88,6 +88,8 @@ type mutator struct {
 	spec   *common.Spec
 	schema *Ty // specification schema of the state (drives whole-subtree replacement)
 	stats  *hreg.Stats
+	cfg    string
+	extra  []string // additional op lines produced by a step (read-back of what a setter stored)
 }
 
 func (m *mutator) valCount(st common.BeaconState) uint64 {
@@ -125,8 +127,13 @@ func (m *mutator) step(st common.BeaconState) (label string) {
 		{"set_header_then_scribble", func() {
 			h := &common.BeaconBlockHeader{Slot: common.Slot(rndU64(rng)), ProposerIndex: common.ValidatorIndex(rndU64(rng)),
 				ParentRoot: rndRoot(rng), StateRoot: rndRoot(rng), BodyRoot: rndRoot(rng)}
+			hb := serializeAny(spec, h)
 			st.SetLatestBlockHeader(h)
 			st.HashTreeRoot(tree.GetHashFn()) // fill the caches
+			if back, err := st.LatestBlockHeader(); err == nil && hb != nil {
+				r := back.HashTreeRoot(tree.GetHashFn())
+				m.extra = append(m.extra, fmt.Sprintf("st readback-after-set common.BeaconBlockHeader %s %s %s", m.cfg, hex.EncodeToString(r[:]), hexOrDash(hb)))
+			}
 			scribble(reflect.ValueOf(h), 0)   // the caller keeps using its struct
 		}},
 		{"set_latest_block_header", func() {
@@ -366,9 +373,9 @@ func (m *mutator) step(st common.BeaconState) (label string) {
 		)
 	}
 	// any fork: a payload header handed to the state, then scribbled over by the caller
-	if m := reflect.ValueOf(st).MethodByName("SetLatestExecutionPayloadHeader"); m.IsValid() && m.Type().NumIn() == 1 {
+	if setH := reflect.ValueOf(st).MethodByName("SetLatestExecutionPayloadHeader"); setH.IsValid() && setH.Type().NumIn() == 1 {
 		ops = append(ops, op{"set_payload_header_then_scribble", func() {
-			h := reflect.New(m.Type().In(0).Elem())
+			h := reflect.New(setH.Type().In(0).Elem())
 			scribble(h, 0) // all-ones content …
 			if f := h.Elem().FieldByName("ExtraData"); f.IsValid() {
 				f.Set(reflect.MakeSlice(f.Type(), rng.Intn(33), 32))
@@ -379,8 +386,25 @@ func (m *mutator) step(st common.BeaconState) (label string) {
 					reflect.Copy(f, reflect.ValueOf(r[:]))
 				}
 			}
-			m.Call([]reflect.Value{h})
+			// distinct integers: exchanged same-typed leaves must show
+			for i := 0; i < h.Elem().NumField(); i++ {
+				if f := h.Elem().Field(i); f.Kind() == reflect.Uint64 {
+					f.SetUint(rng.Uint64()>>1 + uint64(i))
+				}
+			}
+			hb := serializeAny(spec, h.Interface())
+			setH.Call([]reflect.Value{h})
 			st.HashTreeRoot(tree.GetHashFn())
+			// read back what the state stores: its root must be the root of the struct's encoding
+			if g := reflect.ValueOf(st).MethodByName("LatestExecutionPayloadHeader"); g.IsValid() && hb != nil {
+				if out := g.Call(nil); len(out) == 2 && out[1].IsNil() {
+					if sv, ok := out[0].Interface().(view.View); ok {
+						r := sv.HashTreeRoot(tree.GetHashFn())
+						tn := strings.TrimPrefix(h.Type().String(), "*")
+						m.extra = append(m.extra, fmt.Sprintf("st readback-after-set %s %s %s %s", tn, m.cfg, hex.EncodeToString(r[:]), hexOrDash(hb)))
+					}
+				}
+			}
 			scribble(h, 0)
 		}})
 	}
@@ -503,7 +527,7 @@ func genState(o hreg.Opts, w *bufio.Writer) error {
 					}
 					o.Stats.Add("initial-state", "generated")
 				}
-				m := &mutator{rng: rng, spec: spec, schema: schema, stats: o.Stats}
+				m := &mutator{rng: rng, spec: spec, schema: schema, stats: o.Stats, cfg: p.tok}
 				live := []common.BeaconState{st}
 				last := [][]byte{emitState(w, "initial", typ, p.tok, st, nil)}
 				total += len(last[0])
@@ -521,6 +545,10 @@ func genState(o hreg.Opts, w *bufio.Writer) error {
 					}
 					k := rng.Intn(len(live))
 					label := m.step(live[k])
+					for _, x := range m.extra {
+						fmt.Fprintln(w, x)
+					}
+					m.extra = nil
 					if strings.HasSuffix(label, "!panic") {
 						// a mutation of the state API panicked: a line the oracle cannot agree with (Go answers `panic`)
 						fmt.Fprintf(w, "st %s %s %s panic -\n", label, typ, p.tok)
@@ -546,4 +574,16 @@ func genState(o hreg.Opts, w *bufio.Writer) error {
 	o.Stats.Add("ops-hex-megabytes", fmt.Sprintf("%d", total*2>>20))
 	_ = total
 	return nil
+}
+
+func serializeAny(spec *common.Spec, obj interface{}) []byte {
+	o := wrap(spec, obj)
+	if o == nil {
+		return nil
+	}
+	var buf bytes.Buffer
+	if err := o.Serialize(codec.NewEncodingWriter(&buf)); err != nil {
+		return nil
+	}
+	return buf.Bytes()
 }
